@@ -61,10 +61,18 @@ def one(key, tier, seed, checks, workers):
             s2 = s.replace('"/repo/cpp"', f'"{wt}/cpp"').replace('"/repo"', f'"{wt}"')
             if s2 != s:
                 open(f, "w").write(s2)
+        # the FFI harness compiles shim.cpp against the C++ headers of the tree under test
+        br = f"{vf}/harness/ffi/build.rs"
+        if os.path.exists(br):
+            b = open(br).read()
+            open(br, "w").write(b.replace("/repo/cpp/include", f"{wt}/cpp/include"))
         need_ffi = any(t == "C17" for t in targets) or (tier == "thorough" and any(t in ("C18", "C19") for t in targets))
         sh(f"cp -r {ROOT}/target {vf}/target")
         if need_ffi:
             sh(f"cp -r {ROOT}/target-ffi {vf}/target-ffi")
+            # cargo decides by mtime whether the build script is recompiled: build.rs must be
+            # newer than the copied build output
+            sh(f"touch {vf}/harness/ffi/build.rs {vf}/harness/ffi/shim.cpp")
         for t in targets:
             t0 = time.time()
             env = {"VERIF_NO_REPLAY": "1", "VERIF_SEED": str(seed), "VERIF_NO_FUZZ": "1", "VERIF_NO_MIRI": "1"}
